@@ -51,13 +51,15 @@ class C18(Prop):
         kind = KINDS[s.draw(len(KINDS), "kind")]
         shape = s.draw(3, "shape")
         raises = s.weighted((4, 2, 1), "raises")  # 0 value, 1 Exception, 2 BaseException subclass
+        awaitable_result = (not raises) and s.chance(1, 4, "awaitable-result")
         depth = s.draw(4, "depth")
         nest = [s.draw(2, "nest-kind") for _ in range(depth)]
         leak = bool(s.draw(2, "leak"))
         parks = s.weighted((2, 2, 1, 1), "parks")
         beats = 1 + s.draw(4, "beats")
         form = s.draw(3, "call-form")
-        sim.program = {"kind": kind, "shape": SHAPES[shape], "raises": raises, "nesting": nest, "leak": leak,
+        sim.program = {"kind": kind, "shape": SHAPES[shape], "raises": raises, "awaitable_result": int(awaitable_result),
+                       "nesting": nest, "leak": leak,
                        "parks": parks, "heartbeats": beats, "call_form": form}
         if depth:
             sim.nontrivial = True
@@ -66,7 +68,15 @@ class C18(Prop):
         explicit_ex = threads.SimExecutor("explicit")
         jobs = threads.install(sim, default_ex)
         loop_thread = threading.get_ident()
-        result_obj = Obj("result")
+        class AwaitableResult:
+            """A result that happens to be awaitable: it must be handed over as it is, not awaited."""
+            awaited = 0
+
+            def __await__(self):
+                AwaitableResult.awaited += 1
+                return iter(())
+
+        result_obj = AwaitableResult() if awaitable_result else Obj("result")
         exc_obj = InjectedBase("boom") if raises == 2 else Injected("boom")
         seen = {"calls": 0, "thread": None, "args": None, "state": None, "parked": 0, "beats_while_parked": 0}
         hb = {"n": 0, "parked_now": False}
@@ -184,6 +194,12 @@ class C18(Prop):
             """meta doc"""
             return x
 
+        async def nodoc_async(x):
+            return x
+
+        def nodoc_sync(x):
+            return x
+
         products = {
             kind: (wrapped if not is_method else type(wrapped.__self__ if hasattr(wrapped, "__self__") else object), original),
         }
@@ -194,6 +210,12 @@ class C18(Prop):
             ("throttle", throttle(meta_async), meta_async), ("timeout", timeout(1)(meta_async), meta_async),
             ("asynchronous", asynchronous(meta_sync), meta_sync), ("wrap_async", wrap_async(meta_sync), meta_sync),
             ("traced-sync", traced(meta_sync), meta_sync), ("traced-async", traced(meta_async), meta_async),
+        ]
+        metas += [
+            ("cache-nodoc", cache(nodoc_sync), nodoc_sync), ("cache-async-nodoc", cache(nodoc_async), nodoc_async),
+            ("retry-nodoc", retry(nodoc_async), nodoc_async), ("throttle-nodoc", throttle(nodoc_async), nodoc_async),
+            ("timeout-nodoc", timeout(1)(nodoc_async), nodoc_async), ("asynchronous-nodoc", asynchronous(nodoc_sync), nodoc_sync),
+            ("wrap_async-nodoc", wrap_async(nodoc_sync), nodoc_sync), ("traced-nodoc", traced(nodoc_sync), nodoc_sync),
         ]
         if not is_method:
             metas.append((kind, wrapped, original))
